@@ -1272,7 +1272,8 @@ class Interp:
         bound = self.bind_args(fi, args, kwargs, menv)
         spec = self.registry.contract_for(fi.dotted)
         is_top = self.top is not None and fi.ref == self.top.ref and depth == 0
-        self.ctx.tick("ticks")
+        if spec is not None or is_top or not fi.is_straightline_leaf(self.P.repo_callable_names()):
+            self.ctx.tick("ticks")  # one step per call, except calls of contract-less straight-line leaf helpers (constant work)
         if TRACE_CALLS:
             import sys, time
             print(f"[{os.getpid()} {time.time() % 1000:7.2f}] {'  ' * depth}{fi.dotted} taken={len(self.ctx.taken)}", file=sys.stderr)
